@@ -3,7 +3,7 @@ import re
 
 from sa import ccp, guards, local, tables
 from sa.facts import callee_name, norm
-from . import common, fmtmodel
+from . import common, counting, fmtmodel
 
 ASCII_ESCAPES = {"\x0b": "\\v", "\x0c": "\\f", "\n": "\\n", "\r": "\\r", "\t": "\\t"}
 
@@ -163,7 +163,8 @@ def group_printers(lib):
 def grp1(ctx, lib, roles):
     sites = group_printers(lib)
     total = sum(n for _, n in sites)
-    if not ctx.floor("GRP-1", "constructions of (Un)CapturedParenthesizedExpression", total, 12):
+    # semantic minimum: a capturing and a non-capturing construction (helpers may serve any number of printers)
+    if not ctx.floor("GRP-1", "constructions of (Un)CapturedParenthesizedExpression", total, 2):
         return {}
     deciders = {}
     for b, n in sites:
@@ -236,9 +237,12 @@ def run(ctx):
     ctx.assume("regex-syntax in verbose mode ignores exactly char::is_whitespace characters and '#' comments (read in ast/parse.rs)")
     prog = common.view(ctx, "default")
     lib = prog.lib
-    roles = common.role_fields(ctx, lib)
+    roles = common.role_fields(ctx, lib, want=common.FMT_ROLES + ("escape", "surrogate"))
     vws(ctx, prog, lib, roles)
     deciders = grp1(ctx, lib, roles)
+    counting.rules(ctx)
+    counting.cnt1(ctx, lib)
+    counting.cnt2(ctx, lib)
     try:
         from . import plumbing
     except ImportError:
